@@ -466,7 +466,7 @@ EXPECT_EXC = {
     'timeout': ('TimeoutError', None),
     'maxretry': ('ConnectionError', None),
     'closed': ('ConnectionError', lambda e: 'closed' in e.args[0]),
-    'badparam': (('TypeError', 'ValueError'), None),
+    'badparam': (('TypeError', 'ValueError', 'AttributeError'), None),
 }
 
 
@@ -690,6 +690,10 @@ def classify(cfg, op, kind, served, obs):
                 return 'known:http-log-non-utf8-reply-raises-UnicodeDecodeError'
         if cfg.tcr and cfg.rec_enabled and any(not decodable(b) for b in replies):
             return 'known:tcr-non-utf8-reply-raises-UnicodeDecodeError'
+    if obs[1] == 'UnboundLocalError' and op.name == 'PullInstances' and (cfg.log is not None or cfg.tcr) and \
+            kind not in ('ok', 'ok2'):
+        # also with disabled recorders: the faulty statement only looks at their presence
+        return 'known:PullInstances-failure-with-recorder-raises-UnboundLocalError'
     if obs[1] == 'RepresenterError' and cfg.tcr and cfg.rec_enabled and 'py-datetime-arg' in op.tags:
         return 'known:tcr-datetime-param-raises-RepresenterError'
     return None
@@ -788,8 +792,6 @@ def run_sequence(cfg, op, kinds, seq, bare=None):
                         R.violation('content-length-differs-from-bytes-sent', header=headers.get('Content-Length'),
                                     sent=len(body), **desc)
                     exp_auth = 'Basic ' + base64.b64encode(('%s:%s' % (USER, env.pw)).encode('utf-8')).decode('ascii')
-                    if 'export' in op.tags:
-                        exp_auth = None     # requests to a listener carry no credentials
                     if headers.get('Authorization') != exp_auth:
                         R.violation('authorization-header-sent-differs', header=headers.get('Authorization'), **desc)
                     last = served[-1]
@@ -903,10 +905,10 @@ def direct_recorder_checks():
                             R.violation('log-recorder-stage-raises-' + type(e).__name__, error=repr(e)[:200], **desc)
                         continue
                     text = '\n'.join(cap.lines)
-                    secret = auth.split(' ', 1)[1] if ' ' in auth else auth
+                    secret = auth.split(' ', 1)[1] if ' ' in auth else None     # no blank: scheme only
                     if len(cap.lines) != 2:
                         R.violation('log-recorder-record-count', records=len(cap.lines), **desc)
-                    if secret in text or 'Zq9_S3cr3t' in text:
+                    if (secret and secret in text) or 'Zq9_S3cr3t' in text:
                         R.violation('authorization-credential-in-http-log', record=text[:300], **desc)
                 finally:
                     logger.removeHandler(cap)
@@ -919,13 +921,14 @@ def invalid_configurations():
     """configure_logger rejects invalid input with ValueError and leaves connections usable."""
     op = build_ops()[0]
     for args in (('foo', 'stderr', 'all'), ('api', 'nowhere', 'all'), ('api', 'stderr', 'loud'), ('http', 'stderr', -1),
-                 ('api', 'file', 'all'), ('all', 'stderr', 1.5)):
+                 ('api', 'file', 'all', ''), ('all', 'stderr', 1.5)):
         R.case(('invalid-config',) + args)
         env = Env(BARE, 0)
         try:
             try:
                 sys.stderr = io.StringIO()
-                configure_logger(args[0], log_dest=args[1], detail_level=args[2], connection=env.conn)
+                configure_logger(args[0], log_dest=args[1], detail_level=args[2], connection=env.conn,
+                                 **({'log_filename': args[3]} if len(args) > 3 else {}))
                 R.violation('invalid-logger-configuration-accepted', args=args)
             except ValueError:
                 pass
